@@ -49,6 +49,10 @@ def _solve(idx):
     s.add(*hyps)
     s.add(z3.Not(goal))
     r = s.check()
+    if r == z3.unknown and want_model and not logic:
+        r2, s2 = _guided(hyps, goal)
+        if r2 == z3.sat:
+            r, s = r2, s2
     if r == z3.unknown and logic:
         # quantifiers left (integer-keyed maps): the general solver with model-based instantiation
         s = z3.Solver()
@@ -88,6 +92,32 @@ def _solve(idx):
         res["cvc5_s"] = round(time.time() - t1, 3)
     res["verdict"] = _verdict(res)
     return res
+
+
+def _guided(hyps, goal):
+    """Model-guided search for quantifier-free (finite scope) queries the datatype-aware solver cannot decide in time:
+    a fast solver that abstracts datatypes (QF_AUFBV) proposes a candidate; its values for the integer / boolean /
+    bit-vector constants are then fixed and the sound solver is asked again.  Only its `sat` is used."""
+    try:
+        f = z3.SolverFor("QF_AUFBV")
+        f.set("timeout", int(_CFG["z3_timeout"] * 1000))
+        f.add(*hyps)
+        f.add(z3.Not(goal))
+        if f.check() != z3.sat:
+            return z3.unknown, None
+        m = f.model()
+        fixes = []
+        for d in m.decls():
+            if d.arity() == 0 and d.range().kind() in (z3.Z3_INT_SORT, z3.Z3_BOOL_SORT, z3.Z3_BV_SORT):
+                fixes.append(d() == m[d])
+        s = z3.Solver()
+        s.set("timeout", int(_CFG["z3_timeout"] * 1000))
+        s.add(*hyps)
+        s.add(z3.Not(goal))
+        s.add(*fixes)
+        return s.check(), s
+    except z3.Z3Exception:
+        return z3.unknown, None
 
 
 def _verdict(res):
